@@ -1,4 +1,5 @@
-import GeodeVerif.Lemmas.C18Zero
+import GeodeVerif.Lemmas.C18Vel
+import GeodeVerif.Lemmas.C18Instances
 /-!
 # C18 — editing a SINEX solution keeps exactly the remaining parameters and covariance
 
@@ -368,5 +369,41 @@ theorem drop_zero_lines_exact (i start : Nat) (toks : List Str) (hw : ∀ t ∈ 
 theorem blocks_closed_remove_matrixzeros {s : Sol} (hwf : s.wf = true) {c : Clock} (hc : c.Valid) :
     ∃ out : List Str, removeMatrixZeros (render s) c = .ok (unlines out) ∧ wellFormedText out = true :=
   ⟨_, refinement_remove_matrixzeros hwf c, wellFormedText_renderDropZero (shape_of_wf_touch (wf_spec hwf) hc)⟩
+
+/-! ## 6. removing velocities -/
+
+/-- **remove_velocity_exact, partial** (proved for all well-formed solutions with velocities): the
+header written has the new stamp, the count halved and zero-padded, and only the flag ` V`
+removed; the SOLUTION/ESTIMATE block written is that of the abstract solution without velocity
+parameters (position lines kept in order and renumbered).  The SITE/ID and SOLUTION/EPOCHS blocks
+are copied.  **Not proved universally**: that the matrix block written is the rendering of the
+position rows/columns (`Spec.removeVel`'s `mat`); this part is covered by the evaluated instance
+`remove_velocity_exact_instance` and by the correspondence check only. -/
+theorem remove_velocity_exact_partial {s : Sol} (hwf : s.wf = true) (hv : s.vel = true) {c : Clock}
+    (hc : c.Valid) :
+    velHeader (render s) c = .ok (headerLine (Spec.removeVel s c))
+      ∧ velEstLoop (readBlock "SOLUTION/ESTIMATE" (render s)) 0
+          = .ok (estBlock (Spec.removeVel s c), velIdxFrom 0 s.params)
+      ∧ (Spec.removeVel s c).params = s.params.filter (fun cp => !isVel cp.2)
+      ∧ readBlock "SITE/ID" (render s) = siteBlock (Spec.removeVel s c)
+      ∧ readBlock "SOLUTION/EPOCHS" (render s) = epochBlock (Spec.removeVel s c) := by
+  have h := wf_spec hwf
+  refine ⟨velHeader_render h hv hc, ?_, params_removeVel s c, ?_, ?_⟩
+  · rw [readBlock_est h]; exact velEstLoop_render h c
+  · rw [readBlock_site h]; rfl
+  · rw [readBlock_epochs h]
+    simp [epochBlock, Spec.removeVel, touch, List.map_map, Function.comp_def, epochLine]
+
+/-! ## 8. readers — evaluated instances only
+`read_matrix_L_instance`, `read_matrix_U_instance`, `read_estimate_instance`, `read_sites_instance`
+(in `Lemmas/C18Instances.lean`, namespace `GeodeVerif.C18`) evaluate the three readers on rendered
+solutions in the kernel.  No universal `readers_exact` is proved: the estimate and site columns the
+readers parse are opaque text (`rest`) in the abstract solution. -/
+
+/-- the hypotheses of the universal theorems hold for the demonstration solutions, so e.g. the
+refinement theorem applies to them -/
+example : Sinex.removeStns (render demo) ["BRO1".toList] noon
+    = .ok (unlines (render (Spec.removeStns demo ["BRO1".toList] noon))) :=
+  refinement_remove_stns demo_wf (by constructor <;> decide) (by decide) (by decide)
 
 end GeodeVerif.C18
